@@ -1,13 +1,119 @@
-(* C36 — equivalent model descriptions compile to equivalent physics. *)
+(* C36 — equivalent model descriptions compile to equivalent physics.
+   Model: Model/Orient.v (ResolveOrientation = mjs_resolveOrientation with mjuu_normvec / mjuu_z2quat / mjuu_frame2quat,
+   mjCFrame::Compile and the frame arm of the element Compile functions, default-class copying) and
+   Model/Inertia.v (mjuu_frameaccum, mjuu_mulquat); proofs: Proof/OrientProof.v.
+   Numeric statements are over the reals.  mjEPS = 1e-14 is the threshold of mjuu_normvec: a vector whose squared norm is
+   below it is rejected ("too small"), and a vector whose norm is within mjEPS of 1 (but not 1) is left un-normalised by
+   the C code: the theorems exclude that window explicitly. *)
 From Coq Require Import ZArith List PrimFloat Reals Lra Bool String Ascii.
 From MJV Require Import Lib.Num Lib.NumR Model.Spatial Proof.SpatialProof Model.Inertia Proof.InertiaProof Model.Orient Proof.OrientProof.
 Import ListNotations.
 Open Scope R_scope.
 
-(* default classes: resolving an attribute of an element through a chain of nested classes (outermost first) gives the element's
-   own setting if any, else the setting of the innermost class that sets it, else the built-in value *)
+(* ---- orientation spellings: each spelling resolves to (a quaternion of) the rotation it denotes *)
+
+(* axisangle: the unit quaternion of the rotation by the angle (radians, or degrees converted by /180*pi) about the
+   normalised axis; its matrix is Rodrigues' formula; an axis with squared norm below mjEPS is an error; the degree
+   spelling equals the radian spelling of the converted angle *)
+Theorem C36_orient_axisangle (degree : bool) (ax : vec3 R) (angle : R) :
+  (mjEPS <= dot3 ax ax -> (norm3 ax = 1 \/ mjEPS < Rabs (norm3 ax - 1)) ->
+   let a := scl3 ax (/ norm3 ax) in
+   let q := axisAngle_reg a (toRad degree angle) in
+   resolveAxisAngle degree ax angle = Some q /\ unitq q /\ quat2Mat q = rodrigues a (toRad degree angle)) /\
+  (dot3 ax ax < mjEPS -> resolveAxisAngle degree ax angle = None) /\
+  resolveAxisAngle true ax angle = resolveAxisAngle false ax (angle / 180 * PI).
+Proof.
+  split; [exact (resolveAxisAngle_spec degree ax angle)|].
+  split; [exact (resolveAxisAngle_small degree ax angle) | exact (resolveAxisAngle_degree ax angle)].
+Qed.
+Print Assumptions C36_orient_axisangle.
+
+(* euler, EVERY sequence over xyzXYZ (only the first three characters are read), radians or degrees: the result is the
+   ordered product  [upper-case factors, in reverse order] * [lower-case factors, in order],  each factor being the rotation
+   about the named coordinate axis (rotOf = axisAngle2Quat of the unit axis, proved to be Rodrigues' matrix in C24);
+   it is a unit quaternion; a sequence shorter than three characters or with another character is an error;
+   the degree spelling equals the radian spelling of the converted angles *)
+Theorem C36_orient_euler (degree : bool) (c0 c1 c2 : ascii) (rest : list ascii) (e : vec3 R) (seq : list ascii) :
+  (Forall validEuler [c0; c1; c2] ->
+   let es := map (toRad degree) (v2l e) in
+   let q := mulQuat (qprod (rev (factors false [c0; c1; c2] es))) (qprod (factors true [c0; c1; c2] es)) in
+   resolveEuler degree (c0 :: c1 :: c2 :: rest) e = Some q /\ unitq q) /\
+  (~ Forall validEuler (firstn 3 seq) \/ (List.length seq < 3)%nat -> resolveEuler degree seq e = None) /\
+  resolveEuler true seq e = resolveEuler false seq (let '(e0, e1, e2) := e in (e0 / 180 * PI, e1 / 180 * PI, e2 / 180 * PI)).
+Proof.
+  split; [exact (resolveEuler_spec degree c0 c1 c2 rest e)|].
+  split; [exact (resolveEuler_invalid degree seq e) | exact (resolveEuler_degree seq e)].
+Qed.
+Print Assumptions C36_orient_euler.
+
+(* xyaxes: for the rotation given by the unit quaternion p, the spelling x = s * (first column of its matrix),
+   y = t * (second column) + k * x  (any positive scales, any skew along x: the code orthogonalises) resolves to p or -p,
+   i.e. to the same rotation *)
+Theorem C36_orient_xyaxes (p : quat R) (s t k : R) : unitq p -> 0 < s -> 0 < t ->
+  mjEPS <= s * s -> (s = 1 \/ mjEPS < Rabs (s - 1)) -> mjEPS <= t * t -> (t = 1 \/ mjEPS < Rabs (t - 1)) ->
+  let m := quat2Mat p in
+  let x := scl3 (col3 m 0) s in
+  let y := add3 (scl3 (col3 m 1) t) (scl3 x k) in
+  resolveXYAxes x y = Some p \/ resolveXYAxes x y = Some (qopp p).
+Proof. exact (resolveXYAxes_spec p s t k). Qed.
+Print Assumptions C36_orient_xyaxes.
+
+(* zaxis: the result is a unit quaternion whose rotation maps the z axis onto z/|z| and whose own z component is 0 (the
+   rotation axis lies in the xy plane: the minimal rotation).  Excluded: directions within 1e-7 of +-z but not equal to
+   them (the code treats them as +-z), and the mjEPS windows of mjuu_normvec.  A vector below the threshold is an error. *)
+Theorem C36_orient_zaxis (z : vec3 R) :
+  (mjEPS <= dot3 z z -> (norm3 z = 1 \/ mjEPS < Rabs (norm3 z - 1)) ->
+   let v := scl3 z (/ norm3 z) in
+   let sig2 := fst (fst v) * fst (fst v) + snd (fst v) * snd (fst v) in
+   (sig2 = 0 \/ (mjEPS <= sig2 /\ (sqrt sig2 = 1 \/ mjEPS < Rabs (sqrt sig2 - 1)))) ->
+   exists q : quat R, resolveZAxis z = Some q /\ unitq q /\ col3 (quat2Mat q) 2 = v /\ snd q = 0) /\
+  (dot3 z z < mjEPS -> resolveZAxis z = None).
+Proof. split; [exact (resolveZAxis_spec z) | exact (resolveZAxis_small z)]. Qed.
+Print Assumptions C36_orient_zaxis.
+
+(* ---- frames: an element with pose `own` wrapped in any number of nested frames (outermost first), compiled the way
+   mjCFrame::Compile and the element's Compile do it, has the pose written out directly  f1 o (f2 o (... o own));
+   for unit quaternions (mjuu_frameaccum composition is associative) *)
+Theorem C36_frames (frames : list (pose R)) (own : pose R) :
+  Forall unitp frames -> unitp own -> elementInFrames frames own = elementWrittenOut frames own.
+Proof. exact (elementInFrames_eq frames own). Qed.
+Print Assumptions C36_frames.
+
+Theorem C36_frameaccum_assoc (a b c : pose R) : unitp a -> unitp b -> unitp c ->
+  frameaccum (frameaccum a b) c = frameaccum a (frameaccum b c).
+Proof. exact (frameaccum_assoc a b c). Qed.
+Print Assumptions C36_frameaccum_assoc.
+
+(* ---- default classes (discrete): resolving an attribute of an element through a chain of nested classes (outermost
+   first; every class is created as a copy of its parent and then overwritten, the element as a copy of its class) gives
+   the element's own setting if any, else the setting of the innermost class that sets it, else the built-in value:
+   exactly what writing that value explicitly gives *)
 Theorem C36_defaults (V : Type) (builtin : Z -> V) (chain : list (@attrs V)) (own : @attrs V) (a : Z) :
   resolveElement builtin chain own a =
   match own a with Some v => v | None => match innermost chain a with Some v => v | None => builtin a end end.
 Proof. exact (resolveElement_spec builtin chain own a). Qed.
 Print Assumptions C36_defaults.
+
+(* ---- fusestatic, PARTIAL: only the mass-property algebra.  A set of geoms may be replaced by one lumped body (total mass M
+   at its centre of mass c2, carrying the set's tensor about c2) without changing the mass, the first moment or the inertia
+   tensor about any point c (general parallel-axis theorem).  Missing: mjCBody::AccumulateInertia / the re-parenting of the
+   fused body's children, joints and geoms are not modelled (covered by the simulation oracle only). *)
+Theorem C36_fuse_partial (l : list (cgeom R)) (c : vec3 R) : sumM l <> 0 ->
+  let M := sumM l in
+  let c2 := scl3 (sumMP l) (/ M) in
+  scl3 c2 M = sumMP l /\
+  sum6 (map (tensorAbout c) l) = add6 (sum6 (map (tensorAbout c2) l)) (offcenter M (sub3 c2 c)).
+Proof. exact (lumped_equivalent l c). Qed.
+Print Assumptions C36_fuse_partial.
+
+(* the premises are satisfiable *)
+Example C36_example_unit : unitq (/ 2, / 2, / 2, / 2) /\ Forall validEuler ["x"%char; "Y"%char; "z"%char] /\
+  mjEPS <= dot3 (0, 0, 2) (0, 0, 2) /\ mjEPS < Rabs (norm3 (0, 0, 2) - 1) /\ unitp ((1, 2, 3), (/ 2, / 2, - / 2, / 2)).
+Proof.
+  split; [unfold unitq, qnorm2; lra|]. split.
+  - constructor; [unfold validEuler; auto|]. constructor; [unfold validEuler; auto 10|]. constructor; [unfold validEuler; auto 10|]. constructor.
+  - rewrite mjEPS_R. unfold norm3, dot3. num_R. split; [lra|]. split.
+    + replace (0 * 0 + 0 * 0 + 2 * 2) with (2 * 2) by ring. rewrite sqrt_square by lra.
+      replace (2 - 1) with 1 by ring. rewrite Rabs_R1. lra.
+    + unfold unitp, unitq, qnorm2. simpl. lra.
+Qed.
